@@ -30,7 +30,7 @@ ASSUMPTIONS = ['data sets compared by their implicit-VR-LE re-encoding (pydicom 
 
 def cases(tier, seed):
     rnd = random.Random('c16/%d' % seed)
-    n = 900 if tier == 'quick' else 40000
+    n = 4000 if tier == 'quick' else 120000
     for i in range(n):
         yield dict(n=rnd.choice([0, 1, 2, 3, 4, 5, 8]), ts=rnd.choice(sorted(TSS)),
                    smax=rnd.choice([40, 64, 128, 16384]), cmax=rnd.choice([40, 128, 16384]),
